@@ -323,26 +323,16 @@ Proof.
     + apply IH.
 Qed.
 
-Theorem mcb_ref_sound g : gwf g ->
-  Forall (is_cycle g) (mcb_ref g) /\
-  independent_b (map (ring_vec g) (mcb_ref g)) = true /\
-  (length (mcb_ref g) <= Z.to_nat (cyclomatic g))%nat.
+(* the greedy selection over ANY list of simple cycles: simple cycles, accepted by the elimination, at most [need] many *)
+Theorem greedy_cycles_sound g cands need : (forall c, In c cands -> is_cycle g c) ->
+  Forall (is_cycle g) (greedy g [] cands need) /\
+  independent_b (map (ring_vec g) (greedy g [] cands need)) = true /\
+  (length (greedy g [] cands need) <= need)%nat.
 Proof.
-  intros W. unfold mcb_ref. split; [|split].
-  - apply Forall_forall. intros c H. apply greedy_incl in H. apply (proj1 (sort_by_len_In _ _)) in H. apply (horton_candidates_cycles g c W H).
+  intros HC. split; [|split].
+  - apply Forall_forall. intros c H. apply greedy_incl in H. apply HC. exact H.
   - apply greedy_elim.
   - apply greedy_length.
-Qed.
-
-(* what is missing for mcb_ref_is_basis: that the Horton candidates span the cycle space (the count is reached) *)
-Theorem mcb_ref_is_basis_partial g : gwf g -> Z.of_nat (length (mcb_ref g)) = cyclomatic g ->
-  is_cycle_basis g (mcb_ref g) = true.
-Proof.
-  intros W N. destruct (mcb_ref_sound g W) as [C [I _]]. unfold is_cycle_basis. rewrite !andb_true_iff. repeat split.
-  - apply gwf_b_sound. exact W.
-  - apply forallb_forall. intros r Hr. apply simple_cycle_b_sound. rewrite Forall_forall in C. apply C. exact Hr.
-  - apply Z.eqb_eq. exact N.
-  - exact I.
 Qed.
 
 (* ---------- _skin_graph only removes: every simple cycle of the pruned graph is one of the input ---------- *)
